@@ -66,6 +66,10 @@ def build(cls, S, classes, serde=None, servers=1):
         return HashClient([("h", i + 1) for i in range(servers)], retry_attempts=0, retry_timeout=0, dead_timeout=0, **kw)
     if cls == "HashPooled":
         return HashClient([("h", i + 1) for i in range(servers)], use_pooling=True, retry_attempts=1, retry_timeout=0, dead_timeout=0, **kw)
+    if cls == "HashUnix":
+        return HashClient(["/var/run/mc%d.sock" % i for i in range(servers)], retry_attempts=0, retry_timeout=0, dead_timeout=0, **kw)
+    if cls == "HashUnixRetry":
+        return HashClient(["unix:/var/run/mc%d.sock" % i for i in range(servers)], retry_attempts=2, retry_timeout=0, dead_timeout=0, **kw)
 
 
 def canon(r):
@@ -106,7 +110,7 @@ def main(argv):
         plans.append({"bad_serde": how})
     model_lines, model_meta = [], []
     n = 0
-    for cls in ("Client", "Pooled", "Hash", "HashPooled"):
+    for cls in ("Client", "Pooled", "Hash", "HashPooled", "HashUnix", "HashUnixRetry"):
         for name, inv in reads(cls):
             # miss result on an empty healthy server of the real code
             S0 = Scripted(rng)
@@ -210,7 +214,7 @@ def main(argv):
     hash_mod.time = pool_mod.time = fake_time
     try:
         for cls, kw in (("Client", {}), ("Pooled", {}), ("Hash", {"retry_attempts": 0}), ("Hash", {"retry_attempts": 2}), ("Hash", {}), ("HashPooled", {"retry_attempts": 1}),
-                        ("Hash2", {"retry_attempts": 0}), ("Hash2", {"retry_attempts": 2})):
+                        ("Hash2", {"retry_attempts": 0}), ("Hash2", {"retry_attempts": 2}), ("HashUnix", {"retry_attempts": 0}), ("HashUnix", {"retry_attempts": 1})):
             for name, inv in reads(cls):
                 for down_kind in ("refused", "timeout"):
                     S = Scripted(rng)
@@ -222,7 +226,7 @@ def main(argv):
                         obj = Pooled_(("h", 1), max_pool_size=2, **base)
                     else:
                         hk = dict(retry_timeout=5, dead_timeout=60, **kw)
-                        srvs = [("h", 1)] if cls != "Hash2" else [("h", 1), ("h", 2)]
+                        srvs = [("h", 1)] if cls not in ("Hash2", "HashUnix") else [("h", 1), ("h", 2)] if cls == "Hash2" else ["/var/run/mc.sock"]
                         obj = Hash_(srvs, use_pooling=(cls == "HashPooled"), **hk, **base)
                     S.begin_call(0, {})
                     try:
